@@ -227,7 +227,7 @@ fn alphabet(region: &str) -> Vec<Ev> {
 
 impl System for Sys {
     type Ev = Ev;
-    type Key = VerifMac;
+    type Key = (VerifMac, String);
 
     fn enabled(&self) -> Vec<Ev> {
         alphabet(&self.cfg.region)
@@ -257,8 +257,8 @@ impl System for Sys {
         out
     }
 
-    fn key(&self) -> VerifMac {
-        self.core.snap()
+    fn key(&self) -> Self::Key {
+        (self.core.snap(), format!("{:?}", self.core.st()))
     }
     fn alive(&self) -> bool {
         self.core.dead.is_none()
